@@ -370,3 +370,43 @@ fn cnt_reserve_then_insert__split() {
 fn cnt_reserve_then_insert__unsplit() {
     cnt_reserve_then_insert(state(false))
 }
+
+/// VacantEntry::insert (through the guarded hook) in counters mode: the same clauses as a fresh
+/// HashMap::insert, for tables of any size.
+fn cnt_vacant_insert(mut m: M) {
+    let n = m.len();
+    let cap = m.capacity();
+    let l0 = old_len(&m);
+    let main_len0 = m.verif_parts().0.len();
+    reset_counters();
+    {
+        let e = m.verif_vacant_entry(kani::any());
+        let _ = e.insert(kani::any());
+    }
+    assert!(m.len() == n + 1, "[C01] len() wrong after VacantEntry::insert");
+    assert!(hashes() <= 10 && acct::removes() <= 8 && acct::allocs() <= 1 && acct::rehash() == 0, "[C02] VacantEntry::insert exceeded the per-call work bound");
+    let pending = if l0 > 0 { l0 } else if acct::allocs() == 1 { main_len0 } else { 0 };
+    let step = if pending < R { pending } else { R };
+    assert!(old_len(&m) == pending - step, "[C03] a key-adding call did not move min(R, remaining) leftovers");
+    if old_len(&m) == 0 {
+        assert!(!is_split(&m) && acct::live() <= 1, "[C03] the old table is empty but was not released by this call");
+    }
+    assert!(m.capacity() >= cap, "[C04] capacity() decreased across a key-adding call");
+    if cap > n {
+        assert!(acct::allocs() == 0, "[C04] inserting a fresh key with capacity() > len() allocated");
+    }
+    post_inv(&m);
+    kani::cover!(acct::allocs() == 1, "cls: insert grew the table");
+    kani::cover!(true, "reach: end of harness");
+    core::mem::forget(m);
+}
+#[kani::proof]
+#[kani::unwind(12)]
+fn cnt_vacant_insert__split() {
+    cnt_vacant_insert(state_ll(true, 1, LMAX))
+}
+#[kani::proof]
+#[kani::unwind(12)]
+fn cnt_vacant_insert__unsplit() {
+    cnt_vacant_insert(state(false))
+}
